@@ -29,7 +29,8 @@ static inline unsigned slen(const char *s) { unsigned n(0); if (s) while (s[n]) 
 
 struct VSession : Session
 {
-  VSession(const F8MetaCntx& c, const SessionID& sid);   // never called; anchors the vtable
+  VSession() = delete;                                    // never constructed (typed static storage, see vf_session_init)
+  ~VSession() override;                                   // key function: anchors the vtable without pulling in Session's constructors
   bool handle_application(const unsigned seqnum, const Message *&msg) override { return enforce(seqnum, msg) || vf_deliver(seqnum, msg); }
   bool send(Message *tosend, bool destroy, const unsigned custom_seqnum, const bool no_increment) override
      { vf_rec_send(tosend, destroy, custom_seqnum, no_increment); return true; }
@@ -45,7 +46,7 @@ struct VSession : Session
   Message *generate_reject(const unsigned seqnum, const char *what, const char *msgtype) override { vf_gen(g_reject, seqnum, msgtype != nullptr, msgtype, slen(msgtype)); return token(); }
   Message *generate_business_reject(const unsigned seqnum, const Message *msg, const int reason, const char *what) override { vf_gen(g_business_reject, seqnum, unsigned(reason), nullptr, 0); return token(); }
 };
-VSession::VSession(const F8MetaCntx& c, const SessionID& sid) : Session(c, sid) {}
+VSession::~VSession() {}                                  // never run; Session::~Session is a cut point (shims/sess.stubs)
 
 // abstract inbound message: the Message/MessageBase members are built by the real MessageBase constructor (empty trait
 // table); `delete msg` in Session::process runs the real destructors and ends in the class-level operator delete below
